@@ -186,8 +186,12 @@ func runC14(c *Ctx) {
 			return false
 		}
 		why := c14RefValid(f)
-		tf, err := mqtt.VerifNewTopicFilter(f)
+		tf, err, pv := c14SafeNew(f)
 		c.Res.Evaluations++
+		if pv != "" {
+			c.EnumFail("valid", "panic/newTopicFilter", fmt.Sprintf("newTopicFilter(%q) panicked: %s", f, pv), map[string]any{"filter": f})
+			return true
+		}
 		if why != "" {
 			c.Res.Distinct++
 			if err == nil {
@@ -203,8 +207,12 @@ func runC14(c *Ctx) {
 		wild := strings.ContainsAny(f, "+#")
 		for _, t := range topics {
 			want := c14Matches(f, t)
-			got := mqtt.VerifFilterMatch(tf, t)
+			got, pm := c14SafeMatch(tf, t)
 			pairs++
+			if pm != "" {
+				c.EnumFail("match", "panic/Match", fmt.Sprintf("filter %q Match(%q) panicked: %s", f, t, pm), map[string]any{"filter": f, "topic": t})
+				continue
+			}
 			if want && wild {
 				c.Res.Distinct++
 			}
@@ -290,7 +298,10 @@ func runC14(c *Ctx) {
 				}
 			}
 			invoked = invoked[:0]
-			mux.Serve(&mqtt.Message{Topic: t, Payload: []byte{1}})
+			if pm := c14SafeServe(mux, t); pm != "" {
+				c.EnumFail("mux", "panic/Serve", fmt.Sprintf("ServeMux%v.Serve(topic %q) panicked: %s", names, t, pm), map[string]any{"handlers": names, "topic": t})
+				continue
+			}
 			muxCases++
 			if hasInvalid || wildHit {
 				c.Res.Distinct++
@@ -319,4 +330,34 @@ func runC14(c *Ctx) {
 			c.Sample(map[string]any{"part": "match", "filter": s[0], "topic": s[1], "accepted": err == nil, "library": err == nil && mqtt.VerifFilterMatch(tf, s[1]), "reference": c14Matches(s[0], s[1])})
 		}
 	}
+}
+
+
+func c14SafeNew(f string) (tf []string, err error, panicked string) {
+	defer func() {
+		if r := recover(); r != nil {
+			panicked = fmt.Sprint(r)
+		}
+	}()
+	tf, err = mqtt.VerifNewTopicFilter(f)
+	return
+}
+
+func c14SafeMatch(tf []string, t string) (got bool, panicked string) {
+	defer func() {
+		if r := recover(); r != nil {
+			panicked = fmt.Sprint(r)
+		}
+	}()
+	return mqtt.VerifFilterMatch(tf, t), ""
+}
+
+func c14SafeServe(mux *mqtt.ServeMux, t string) (panicked string) {
+	defer func() {
+		if r := recover(); r != nil {
+			panicked = fmt.Sprint(r)
+		}
+	}()
+	mux.Serve(&mqtt.Message{Topic: t, Payload: []byte{1}})
+	return ""
 }
